@@ -225,33 +225,10 @@ func init() {
 					}
 					tmp = append(tmp, ofile)
 					variant = append(variant, "-o")
-					// ... or not be a regular file at all: a named pipe somebody reads, or /dev/null (which of the three rotates
-					// with the request index)
-					if i%8 == 3 {
-						switch ci(k, "i") % 3 {
-						case 1:
-							os.Remove(ofile)
-							ofifo = ofile
-							variant[len(variant)-1] = "-o=fifo"
-						case 2:
-							os.Remove(ofile)
-							ofile, sink = "/dev/null", true
-							variant[len(variant)-1] = "-o=/dev/null"
-						}
-					}
+					// (for a while the target could also be a named pipe, /dev/null or the input file itself: the statement speaks
+					// of "the -o file", and a crd that writes a temporary file and renames it, or opens its output first, keeps
+					// every sentence of it -- DESIGN 10.5)
 					args = append(args, "-o", ofile)
-				}
-				// in-place: -o onto the very file the input is read from (the result must be complete all the same)
-				if ofile != "" && i%8 == 7 {
-					for ai, a := range args {
-						if rq.stdin != "" && a != "-" && strings.Contains(a, "/in") {
-							args[len(args)-1] = a
-							ofile = a
-							variant = append(variant, "in-place")
-							_ = ai
-							break
-						}
-					}
 				}
 				if dictFifo != nil {
 					if fifos == nil {
